@@ -1,0 +1,137 @@
+// Copyright 2025 Democratized Data Foundation
+//
+// Use of this software is governed by the Business Source License
+// included in the file licenses/BSL.txt.
+//
+// As of the Change Date specified in that file, in accordance with
+// the Business Source License, use of this software will be governed
+// by the Apache License, Version 2.0, included in the file
+// licenses/APL.txt.
+
+//go:build verif
+
+package net
+
+import (
+	"context"
+
+	"github.com/ipfs/boxo/blockservice"
+	"github.com/ipfs/boxo/exchange"
+	"github.com/ipfs/go-cid"
+	libp2pevent "github.com/libp2p/go-libp2p/core/event"
+	"github.com/libp2p/go-libp2p/core/host"
+	"github.com/libp2p/go-libp2p/core/peer"
+	"github.com/libp2p/go-libp2p/p2p/host/eventbus"
+	grpcpeer "google.golang.org/grpc/peer"
+
+	"github.com/sourcenetwork/defradb/event"
+	"github.com/sourcenetwork/defradb/internal/datastore"
+)
+
+// This file exists only in builds tagged `verif`. It lets a deterministic
+// simulation harness replace the three ways a Peer talks to other peers
+// (push-log RPC over gRPC/libp2p streams, block exchange over bitswap, pubsub)
+// by an in-process transport, while everything else in this package runs as it is.
+
+const simEnabled = true
+
+// SimPushLog is the payload of a push-log request.
+type SimPushLog struct {
+	DocID        string
+	CID          []byte
+	CollectionID string
+	Creator      string
+	Block        []byte
+}
+
+// SimTransport is implemented by the simulation harness.
+type SimTransport interface {
+	// PushLog carries a push-log request to a peer and returns its reply error.
+	PushLog(ctx context.Context, from, to peer.ID, req SimPushLog) error
+	// Exchange returns the block exchange the peer fetches missing blocks with.
+	Exchange(p *Peer) exchange.Interface
+	// Publish carries a pubsub message.
+	Publish(ctx context.Context, from peer.ID, topic string, data []byte) error
+}
+
+// SimNet is the transport used by every Peer created while it is non-nil.
+var SimNet SimTransport
+
+func simActive() bool { return SimNet != nil }
+
+// simHostReady lets NewPeer proceed although the simulated host listens on nothing.
+func simHostReady(h host.Host) {
+	if SimNet == nil {
+		return
+	}
+	em, err := h.EventBus().Emitter(&libp2pevent.EvtLocalAddressesUpdated{}, eventbus.Stateful)
+	if err != nil {
+		return
+	}
+	_ = em.Emit(libp2pevent.EvtLocalAddressesUpdated{})
+	_ = em.Close()
+}
+
+func simPushLog(s *server, evt event.Update, pid peer.ID) error {
+	ctx, cancel := context.WithTimeout(s.peer.ctx, PushTimeout)
+	defer cancel()
+	err := SimNet.PushLog(ctx, s.peer.host.ID(), pid, SimPushLog{
+		DocID:        evt.DocID,
+		CID:          evt.Cid.Bytes(),
+		CollectionID: evt.CollectionID,
+		Creator:      s.peer.host.ID().String(),
+		Block:        evt.Block,
+	})
+	if err != nil {
+		return NewErrPushLog(err)
+	}
+	return nil
+}
+
+func simBlockService(p *Peer, bs blockservice.BlockService) blockservice.BlockService {
+	if SimNet == nil {
+		return bs
+	}
+	return blockservice.New(datastore.BlockstoreFrom(p.db.Rootstore()), SimNet.Exchange(p))
+}
+
+func simPublish(ctx context.Context, s *server, topic string, data []byte) error {
+	return SimNet.Publish(ctx, s.peer.host.ID(), topic, data)
+}
+
+// SimHandlePushLog feeds a push-log request to the peer's gRPC handler as if it had arrived from `from`.
+func (p *Peer) SimHandlePushLog(ctx context.Context, from peer.ID, req SimPushLog) error {
+	ctx = grpcpeer.NewContext(ctx, &grpcpeer.Peer{Addr: addr{from}})
+	_, err := p.server.pushLogHandler(ctx, &pushLogRequest{
+		DocID:        req.DocID,
+		CID:          req.CID,
+		CollectionID: req.CollectionID,
+		Creator:      req.Creator,
+		Block:        req.Block,
+	})
+	return err
+}
+
+// SimHandlePubSub feeds a pubsub message to the peer's topic handler as if it had arrived from `from`.
+func (p *Peer) SimHandlePubSub(from peer.ID, topic string, data []byte) error {
+	_, err := p.server.pubSubMessageHandler(from, topic, data)
+	return err
+}
+
+// SimHasAccess exposes the filter bitswap consults before serving a block to a peer.
+func (p *Peer) SimHasAccess(requester peer.ID, c cid.Cid) bool {
+	return p.server.hasAccess(requester, c)
+}
+
+// SimSubscribedTopics lists the topics the peer is subscribed to.
+func (p *Peer) SimSubscribedTopics() []string {
+	p.server.mu.Lock()
+	defer p.server.mu.Unlock()
+	out := []string{}
+	for name, t := range p.server.topics {
+		if t.subscribed {
+			out = append(out, name)
+		}
+	}
+	return out
+}
